@@ -1,6 +1,7 @@
 """C17: the CBOR decoder is total; truncation costs only the last event (spec/cbor/CborGen.tla, CborStream.tla)."""
 import base64
 import json
+import struct
 import os
 import random
 import time
@@ -128,6 +129,17 @@ def check(pid, tier, seed, replay=None):
             for i in range(6 if thorough else 3):
                 evs = [rng.choice(small) for _ in range(rng.randint(40, 90))]
                 ops.append({"a": "Stream", "id": "long%d" % i, "events": [e.hex() for e in evs], "sparse": True})
+            # dense streams: hand-built valid events in which almost every byte belongs to a 2-, 4- or 8-byte argument (integers,
+            # negative integers, a float64, a 2-byte string length), preceded by a padding event that shifts the alignment: with
+            # 8 (thorough 36) consecutive shifts some multi-byte argument straddles every 4096-byte refill of the decoder's reader
+            def dense_event():
+                u8 = rng.randrange(1 << 32, 1 << 62).to_bytes(8, "big")
+                return (b"\xbf\x61a\x1b" + u8 + b"\x61b\x1a" + rng.randrange(1 << 16, 1 << 32).to_bytes(4, "big") + b"\x61c\x19" + rng.randrange(256, 1 << 16).to_bytes(2, "big")
+                        + b"\x61d\xfb" + struct.pack(">d", rng.uniform(-1e9, 1e9)) + b"\x61e\x3b" + rng.randrange(1 << 32, 1 << 62).to_bytes(8, "big")
+                        + b"\x61f\x79\x01\x04" + b"t" * 260 + b"\xff")
+            for shift in range(36 if thorough else 8):
+                pad = b"\xbf\x61p\x78" + bytes([24 + shift]) + b"x" * (24 + shift) + b"\xff"
+                ops.append({"a": "Stream", "id": "dense%d" % shift, "events": [pad.hex()] + [dense_event().hex() for _ in range(40)], "sparse": True})
             for i in range(3000 if thorough else 600):
                 ev = rng.choice(events)
                 ops.append({"a": "Input", "id": "mut%d" % i, "hex": mutate(rng, ev).hex()})
